@@ -181,3 +181,25 @@ VARIANTS += [
       "temp_2=self.__temp_2)\n\n    def _unused(self):\n        return (0,\n",
       "silent"),
 ]
+
+VARIANTS += [
+    V("upper-bound-one-error-per-violation", "moptipyapps/ttp/errors.py",
+      "        return (days * n * (3 + max(1, short) + sep)) + (n * short) \\\n"
+      "            + ((days * n) // 2)",
+      "        return (4 * days - 1) * n - 1", "fire", "D7.7",
+      "the bound the repository declared before the fix"),
+    V("upper-bound-forgets-separation", "moptipyapps/ttp/errors.py",
+      "(days * n * (3 + max(1, short) + sep))",
+      "(days * n * (3 + max(1, short)))", "fire", "D7.7"),
+    V("upper-bound-forgets-short-streaks", "moptipyapps/ttp/errors.py",
+      "(days * n * (3 + max(1, short) + sep))", "(days * n * (4 + sep))",
+      "fire", "D7.7"),
+    V("silent-upper-bound-looser", "moptipyapps/ttp/errors.py",
+      "(days * n * (3 + max(1, short) + sep))",
+      "(days * n * (4 + max(1, short) + sep))", "silent"),
+    V("silent-upper-bound-reordered", "moptipyapps/ttp/errors.py",
+      "        return (days * n * (3 + max(1, short) + sep)) + (n * short) \\\n"
+      "            + ((days * n) // 2)",
+      "        return (n * short) + ((n * days) // 2) \\\n"
+      "            + (n * days * (sep + max(1, short) + 3))", "silent"),
+]
